@@ -372,6 +372,16 @@ func init() {
 	for _, n := range []string{"(*sync.Mutex).Unlock", "(*sync.RWMutex).Unlock", "(*sync.RWMutex).RUnlock"} {
 		reg(n, lockOp(false))
 	}
+	reg(verifPkg+".Origin", func(p *Path, _ *frame, a []Value) Value {
+		v := a[0]
+		if itf, ok := v.(Iface); ok {
+			v = itf.V
+		}
+		if po, ok := v.(Poison); ok {
+			return po.Why
+		}
+		return ""
+	})
 	reg(verifPkg+".LockModel", func(p *Path, _ *frame, a []Value) Value {
 		p.lockModel = p.branch(p.boolArg(a[0]))
 		return nil
